@@ -4,11 +4,17 @@ use std::sync::atomic::Ordering;
 
 use crate::actors;
 use crate::dynh::{spawn_decl, spec_of};
-use crate::interp::{Env, H, Slot, run_client};
-use crate::log::{self, Ev, K};
+use crate::interp::{H, Slot};
+#[cfg(any(feature = "l1", feature = "mt"))]
+use crate::interp::{Env, run_client};
+use crate::log::{self, K};
+#[cfg(any(feature = "l1", feature = "mt"))]
+use crate::log::Ev;
 use crate::prog::*;
+#[cfg(any(feature = "l1", feature = "mt"))]
 use crate::vexec::{self, CancelPlan, Exec, Outcome, Policy, TaskInfo, UNIT};
 
+#[cfg(any(feature = "l1", feature = "mt"))]
 #[derive(Clone, Copy, Debug)]
 pub struct RunCfg {
     pub seed: u64,
@@ -17,6 +23,7 @@ pub struct RunCfg {
     pub max_steps: u64,
 }
 
+#[cfg(any(feature = "l1", feature = "mt"))]
 pub struct Trace {
     pub events: Vec<Ev>,
     pub clients_outcome: Outcome,
@@ -33,6 +40,7 @@ pub struct Trace {
     pub cb_kinds: std::collections::BTreeMap<u32, Vec<&'static str>>,
 }
 
+#[cfg(any(feature = "l1", feature = "mt"))]
 impl Trace {
     pub fn inconclusive(&self) -> bool {
         self.clients_outcome == Outcome::StepCap
@@ -41,11 +49,49 @@ impl Trace {
     }
 }
 
+#[cfg(feature = "l1")]
 pub fn spawn_client(fut: futures::future::LocalBoxFuture<'static, ()>) {
     vexec::spawn_local("client", fut);
 }
 
-fn decl_defaults(prog: &Program) {
+#[cfg(not(feature = "l1"))]
+pub fn spawn_client(_fut: futures::future::LocalBoxFuture<'static, ()>) {
+    panic!("Fork is only supported on the L1 engine");
+}
+
+pub type Reaper = Vec<(u32, Box<dyn crate::dynh::DynWeak>)>;
+
+/// spawn the setup actors and lay out the clients' slot tables:
+/// slots [0, nact) = Addr of actor a, [nact, 2 nact) = OwningAddr of actor a
+pub fn setup_tables(prog: &Program) -> (Vec<Vec<Slot>>, Reaper) {
+    let nclients = prog.clients.len();
+    let nact = prog.actors.len();
+    let mut reaper: Reaper = vec![];
+    let mut tables: Vec<Vec<Slot>> = (0..nclients).map(|_| (0..2 * nact).map(|_| Slot::empty()).collect()).collect();
+    for (ai, d) in prog.actors.iter().enumerate() {
+        if !d.at_setup {
+            continue;
+        }
+        let sp = spawn_decl(d);
+        if let Some(a) = &sp.addr {
+            reaper.push((d.tag, a.downgrade()));
+            for h in &d.holders {
+                if let Some(t) = tables.get_mut(*h as usize) {
+                    t[ai] = Slot::mk(H::Addr(a.clone_box()), d.tag, *h);
+                }
+            }
+        }
+        if let Some(o) = sp.owning {
+            if let Some(t) = tables.get_mut(d.owner as usize) {
+                t[nact + ai] = Slot::mk(H::Owning(o), d.tag, d.owner);
+            }
+        }
+        drop(sp.addr);
+    }
+    (tables, reaper)
+}
+
+pub fn decl_defaults(prog: &Program) {
     for d in &prog.defaults {
         let spec = spec_of(d);
         actors::register_spec(Arc::clone(&spec));
@@ -53,7 +99,7 @@ fn decl_defaults(prog: &Program) {
     }
 }
 
-async fn cleanup(topics: Vec<u8>) {
+pub async fn cleanup(topics: Vec<u8>) {
     use crate::actors::{Probe, Topic};
     use hannibal::{Addr, Broker};
     if let Some(mut a) = Addr::<Probe<1>>::unregister().await {
@@ -71,6 +117,7 @@ async fn cleanup(topics: Vec<u8>) {
     }
 }
 
+#[cfg(feature = "l1")]
 pub fn run_l1(prog: &Program, cfg: RunCfg) -> Trace {
     log::reset();
     actors::reset_globals();
@@ -92,32 +139,7 @@ pub fn run_l1(prog: &Program, cfg: RunCfg) -> Trace {
     exec.cancel = prog.cancel.map(|(n, j)| CancelPlan { actor_task_nth: n, after_polls: j });
 
     log::log(K::Phase("setup"));
-    let nclients = prog.clients.len();
-    let nact = prog.actors.len();
-    // slot layout: [0, nact) Addr of actor a; [nact, 2 nact) OwningAddr of actor a
-    let mut reaper: Vec<(u32, Box<dyn crate::dynh::DynWeak>)> = vec![];
-    let mut tables: Vec<Vec<Slot>> =
-        (0..nclients).map(|_| (0..2 * nact).map(|_| Slot::empty()).collect()).collect();
-    for (ai, d) in prog.actors.iter().enumerate() {
-        if !d.at_setup {
-            continue;
-        }
-        let sp = spawn_decl(d);
-        if let Some(a) = &sp.addr {
-            reaper.push((d.tag, a.downgrade()));
-            for h in &d.holders {
-                if let Some(t) = tables.get_mut(*h as usize) {
-                    t[ai] = Slot::mk(H::Addr(a.clone_box()), d.tag, *h);
-                }
-            }
-        }
-        if let Some(o) = sp.owning {
-            if let Some(t) = tables.get_mut(d.owner as usize) {
-                t[nact + ai] = Slot::mk(H::Owning(o), d.tag, d.owner);
-            }
-        }
-        drop(sp.addr);
-    }
+    let (tables, mut reaper) = setup_tables(prog);
     let env = Env::new(prog.clone());
     log::log(K::Phase("clients"));
     for (c, (ops, table)) in prog.clients.iter().cloned().zip(tables).enumerate() {
@@ -184,4 +206,9 @@ pub fn run_l1(prog: &Program, cfg: RunCfg) -> Trace {
         clients_done,
         cb_kinds,
     }
+}
+
+#[cfg(feature = "l1")]
+pub fn run(prog: &Program, cfg: RunCfg) -> Trace {
+    run_l1(prog, cfg)
 }
